@@ -793,6 +793,9 @@ class C18(Check):
             forced_found = {pstr(x[1]) for x in args if x[0] == "F" and os.path.exists(os.path.join(cwd, pstr(x[1])))}
             missing = {d for d in deps if not os.path.isabs(d) and d not in forced_found}
             expected = {e[3] for e in sa[1] if e[0] == "missing-include"} | {e[2] for e in sa[1] if e[0] == "missing-forced"}
+            if forced_found & expected:
+                self.oracle_skipped += 1        # the same spelling is both found (forced, cwd) and missing: gcc's list cannot tell
+                continue
             if missing != expected:
                 self.oracle_bad.append({"case": c, "gcc_missing": sorted(missing), "spec_missing": sorted(expected)})
         if self.oracle_bad:
